@@ -27,11 +27,7 @@ def nonFinite (t : String) : Bool :=
 
 def numericModels : List String := ["g", "p", "m", "k", "r", "n", "v"]
 
-def dispatch (line : String) : String :=
-  let (req, impl) := splitArrow (tokens line)
-  if (match req with | m :: _ => numericModels.contains m | [] => false) && (req ++ impl).any nonFinite then
-    "bad non-finite value (NaN or infinity) returned by the implementation"
-  else
+def dispatch0 (req impl : List String) : String :=
   match req with
   | "g" :: args => Grid.handle args impl
   | "p" :: args => Poly.handle args impl
@@ -44,6 +40,17 @@ def dispatch (line : String) : String :=
   | "c" :: args => Calc.handle args impl
   | "f" :: args => NF.handle args impl
   | _ => "bad-op"
+
+/-- a request of a numerical model which its handler cannot parse because the implementation
+answered NaN / infinity is a violation, not a protocol error (handlers that expect non-finite
+answers - e.g. kriging of an exactly singular system - see them first) -/
+def dispatch (line : String) : String :=
+  let (req, impl) := splitArrow (tokens line)
+  let v := dispatch0 req impl
+  if v = "bad-op" && (match req with | m :: _ => numericModels.contains m | [] => false)
+      && (req ++ impl).any nonFinite then
+    "bad non-finite value (NaN or infinity) returned by the implementation"
+  else v
 
 partial def loop (h : IO.FS.Stream) (out : IO.FS.Stream) : IO Unit := do
   let line ← h.getLine
